@@ -505,3 +505,31 @@ def out_set(ctx, P, cg, g, k, cls, cls_key, depth=0):
         r = "sometimes"
     _OUTSET_MEMO[key] = r
     return r
+
+
+def bitfield_of(P, t):
+    """(base term, member name) when t reads a bit-field member: and(lshr(load &b->f, k), m) / and(load &b->f, m) / lshr(..)"""
+    shift, mask, inner = 0, None, t
+    if t[0] == "op" and t[1] == "and" and t[2][1][0] == "const":
+        mask = t[2][1][1]
+        inner = t[2][0]
+    if inner[0] == "op" and inner[1] == "lshr" and inner[2][1][0] == "const":
+        shift = inner[2][1][1]
+        inner = inner[2][0]
+    if inner[0] == "load" and inner[1][0] == "field":
+        fld = inner[1]
+        sub = P.bitfields.get((fld[2], fld[3]))
+        if not sub:
+            return None
+        if mask is None:
+            # top member: shifted only
+            for sm in sub:
+                if sm["off_bits"] == shift and sm.get("bitfield"):
+                    last = max(x["off_bits"] for x in sub)
+                    if sm["off_bits"] == last:
+                        return (fld[1], sm["name"])
+            return None
+        name = P.bitfield_name(fld[2], fld[3], shift, mask)
+        if name:
+            return (fld[1], name)
+    return None
